@@ -18,20 +18,21 @@ import time
 
 import dv
 
-AS_IMPL = ["HardStateSavedOnlyOnDrop", "Prev0ResetsFollowerLog", "GappedAppendRequest", "VoteResetOnAnyStepDown"]
+AS_IMPL = ["HardStateSavedOnlyOnDrop", "Prev0ResetsFollowerLog", "GappedAppendRequest", "VoteResetOnAnyStepDown",
+           "EmptyAEAckReportsWholeLog", "FollowerCommitUsesWholeLog"]
 
 # focused model-checking configurations (constants of DEngine.tla) ------------------------------
 MC = {
     # election: fine-grained rounds, crash/restart, message loss
     "elect-q": dict(Node="{1,2,3}", MaxTerm=3, MaxLog=1, MaxMsgs=2, Cap=100, Faults=["Crash", "Drop"],
                     MaxCrash=1, MaxDrop=1),
-    "elect-t": dict(Node="{1,2,3}", MaxTerm=3, MaxLog=2, MaxMsgs=3, Cap=100, Faults=["Crash", "Drop"],
-                    MaxCrash=2, MaxDrop=3),
-    # replication / commit: client writes, heartbeats, loss + duplication
-    "repl-q": dict(Node="{1,2,3}", MaxTerm=2, MaxLog=3, MaxMsgs=3, Cap=1,
-                   Faults=["Drop", "Dup", "Client", "Heartbeat"], MaxCrash=0, MaxDrop=1),
+    "elect-t": dict(Node="{1,2,3}", MaxTerm=3, MaxLog=2, MaxMsgs=3, Cap=100, Faults=["Crash", "Stop", "Drop"],
+                    MaxCrash=2, MaxDrop=2),
+    # replication / commit: client writes, heartbeats, loss + duplication, one crash
+    "repl-q": dict(Node="{1,2,3}", MaxTerm=3, MaxLog=2, MaxMsgs=2, Cap=1,
+                   Faults=["Crash", "Drop", "Dup", "Client", "Heartbeat"], MaxCrash=1, MaxDrop=1),
     "repl-t": dict(Node="{1,2,3}", MaxTerm=3, MaxLog=3, MaxMsgs=3, Cap=1,
-                   Faults=["Crash", "Drop", "Dup", "Client", "Heartbeat"], MaxCrash=1, MaxDrop=2),
+                   Faults=["Crash", "Drop", "Dup", "Client", "Heartbeat"], MaxCrash=1, MaxDrop=1),
 }
 
 INV = {
@@ -61,7 +62,7 @@ PROPS = {
 }
 
 TIER = {
-    "quick": dict(sim_num=150, sim_depth=45, rnd_runs=120, rnd_depth=60, workers=8, mc_timeout=900),
+    "quick": dict(sim_num=60, sim_depth=45, rnd_runs=80, rnd_depth=60, workers=8, mc_timeout=900),
     "thorough": dict(sim_num=1500, sim_depth=60, rnd_runs=1500, rnd_depth=80, workers=16, mc_timeout=3000),
 }
 
@@ -108,10 +109,12 @@ def run_harness(wd, schedules, rnd_runs, rnd_depth, seed_, cfg):
         dv.run([binp, "replay", "--schedules", sp, "--out", tp, "--scratch", scratch], timeout=3000)
         traces.append(tp)
     if rnd_runs:
-        tp = os.path.join(wd, "trace-rnd.ndjson")
-        dv.run([binp, "random", "--runs", str(rnd_runs), "--depth", str(rnd_depth), "--seed", str(seed_),
-                "--cfg", json.dumps(cfg), "--out", tp, "--scratch", scratch], timeout=3000)
-        traces.append(tp)
+        # half of the random runs with the configured per-request cap, half with the default (100)
+        for tag, c, sd in (("a", cfg, seed_), ("b", dict(cfg, cap=100), seed_ + 7919)):
+            tp = os.path.join(wd, "trace-rnd-%s.ndjson" % tag)
+            dv.run([binp, "random", "--runs", str(max(1, rnd_runs // 2)), "--depth", str(rnd_depth),
+                    "--seed", str(sd), "--cfg", json.dumps(c), "--out", tp, "--scratch", scratch], timeout=3000)
+            traces.append(tp)
     return traces
 
 
